@@ -67,6 +67,9 @@ func (s String) Cut(st funcGen.Stack[Value]) (Value, error) {
 					return String(""), nil
 				}
 			}
+			if len(str) == 0 {
+				return String(""), nil
+			}
 			var res bytes.Buffer
 			if n <= 0 {
 				n = math.MaxInt
